@@ -33,23 +33,110 @@ def finish(pid, tier, level, coverage, t0, violations, known_hits, assumptions):
 # ---------------------------------------------------------------------------
 # RpcConn family
 M = cf.modes
+C = cf.consts
+FAULT_SIMS = [('np', C({1, 2, 3}, M(), wfail=1, mfail=1, cut=1, loss=1, close=2, dup=1, unk=1)),
+              ('pp', C({1, 2, 3}, M(cp=True, sp=True), wfail=1, mfail=1, cut=1, loss=1, close=2, dup=1, unk=1)),
+              ('dd', C({1, 2, 3}, M(cd=True, sd=True), wfail=1, mfail=1, cut=1, loss=1, close=2, dup=1, unk=1)),
+              ('n5', C({1, 2, 3, 5, 6}, M(), wfail=2, mfail=1, cut=1, loss=2, close=2, dup=2, unk=1))]
+HAPPY_SIMS = [('np', C({1, 2, 3, 5, 6}, M(), dup=2, unk=1)),
+              ('pp', C({1, 2, 3, 5, 6}, M(cp=True, sp=True), dup=1, unk=1)),
+              ('pd', C({1, 2, 3, 5, 6}, M(cp=True, sp=True, cd=True, sd=True), dup=1)),
+              ('sp', C({1, 2, 3, 5, 6}, M(sp=True), dup=1)),
+              ('dd', C({1, 2, 3, 5, 6}, M(cd=True, sd=True), dup=1, unk=1))]
 CONN_PLANS = {
     # per property: model instances, deviations whose counterexamples become directed schedules,
     # simulation instances (the same constants drive TLC's random behaviours)
+    'C01': {
+        'own': 'C01',
+        'models': {'quick': [('u3dup', C({1, 2, 3}, M(), dup=1, unk=1)),
+                             ('u3dupP', C({1, 2, 3}, M(cp=True, sp=True), dup=1, unk=1))],
+                   'thorough': [('u4dup', C({1, 2, 5, 6}, M(), dup=1, unk=1)),
+                                ('u4dupD', C({1, 2, 5, 6}, M(cd=True, sd=True), dup=2, unk=1)),
+                                ('u4dupP', C({1, 2, 5, 6}, M(cp=True, sp=True), dup=2, unk=1))]},
+        'devs': [('wrongseq', ['EchoWrongSeq'], C({1, 2, 3}, M())),
+                 ('seqreuse', ['SeqReuse'], C({1, 2, 3}, M())),
+                 ('seqreuseP', ['SeqReuse'], C({1, 2, 3}, M(cp=True, sp=True)))],
+        'sims': HAPPY_SIMS,
+        'pads': [0, 1, 24, 127, 128, 600, 70000],
+    },
     'C02': {
         'own': 'C02',
-        'models': {'quick': [('u3f', cf.consts({1, 2, 3}, M(), wfail=1, cut=1, loss=1, close=1))],
-                   'thorough': [('u3f', cf.consts({1, 2, 3}, M(), wfail=1, cut=1, loss=1, close=1, dup=1, unk=1)),
-                                ('u3p', cf.consts({1, 2, 3}, M(cp=True, sp=True), wfail=1, cut=1, loss=1, close=1, dup=1)),
-                                ('u3d', cf.consts({1, 2, 3}, M(cd=True, sd=True), wfail=1, cut=1, loss=1, close=1, dup=1))]},
-        'devs': [('sweepkeep', ['SweepKeepsEntries', 'WriteFailAlwaysCompletes'], cf.consts({1, 2, 3}, M(), wfail=1, cut=1, close=1)),
-                 ('sweepkeepP', ['SweepKeepsEntries', 'WriteFailAlwaysCompletes'], cf.consts({1, 2, 3}, M(cp=True, sp=True), wfail=1, cut=1, close=1)),
-                 ('dispkeep', ['DispatchKeepsEntry'], cf.consts({1, 2, 3}, M(), cut=1, dup=1)),
-                 ('sweepskip', ['SweepSkips'], cf.consts({1, 2, 3}, M(), cut=1))],
-        'sims': [('np', cf.consts({1, 2, 3}, M(), wfail=1, mfail=1, cut=1, loss=1, close=2, dup=1, unk=1)),
-                 ('pp', cf.consts({1, 2, 3}, M(cp=True, sp=True), wfail=1, mfail=1, cut=1, loss=1, close=2, dup=1, unk=1)),
-                 ('dd', cf.consts({1, 2, 3}, M(cd=True, sd=True), wfail=1, mfail=1, cut=1, loss=1, close=2, dup=1, unk=1)),
-                 ('n5', cf.consts({1, 2, 3, 5, 6}, M(), wfail=2, mfail=1, cut=1, loss=2, close=2, dup=2, unk=1))],
+        'models': {'quick': [('u3f', C({1, 2, 3}, M(), wfail=1, cut=1, loss=1, close=1))],
+                   'thorough': [('u3f', C({1, 2, 3}, M(), wfail=1, cut=1, loss=1, close=1, dup=1, unk=1)),
+                                ('u3p', C({1, 2, 3}, M(cp=True, sp=True), wfail=1, cut=1, loss=1, close=1, dup=1)),
+                                ('u3d', C({1, 2, 3}, M(cd=True, sd=True), wfail=1, cut=1, loss=1, close=1, dup=1))]},
+        'devs': [('sweepkeep', ['SweepKeepsEntries', 'WriteFailAlwaysCompletes'], C({1, 2, 3}, M(), wfail=1, cut=1, close=1)),
+                 ('sweepkeepP', ['SweepKeepsEntries', 'WriteFailAlwaysCompletes'], C({1, 2, 3}, M(cp=True, sp=True), wfail=1, cut=1, close=1)),
+                 ('dispkeep', ['DispatchKeepsEntry'], C({1, 2, 3}, M(), cut=1, dup=1)),
+                 ('sweepskip', ['SweepSkips'], C({1, 2, 3}, M(), cut=1))],
+        'sims': FAULT_SIMS,
+    },
+    'C03': {
+        'own': 'C03',
+        'models': {'quick': [('u3c', C({1, 2, 3}, M(), cut=1, loss=1, close=1)),
+                             ('u3cP', C({1, 2}, M(cp=True, sp=True), cut=1, loss=1, close=1, wfail=1))],
+                   'thorough': [('u3f', C({1, 2, 3}, M(), wfail=1, cut=1, loss=2, close=2)),
+                                ('u3p', C({1, 2, 3}, M(cp=True, sp=True), wfail=1, cut=1, loss=1, close=1)),
+                                ('u3d', C({1, 2, 3}, M(cd=True, sd=True), wfail=1, cut=1, loss=1, close=1))]},
+        'live': {'quick': [('l2', C({1, 3}, M(), cut=1, loss=1, close=1, wfail=1))],
+                 'thorough': [('l3', C({1, 2, 3}, M(), cut=1, loss=1, close=1)),
+                              ('l2p', C({1, 3}, M(cp=True, sp=True), cut=1, loss=1, close=1, wfail=1))]},
+        'devs': [('nodrain', ['SweepBeforeDrain'], C({1, 2, 3}, M(), cut=1)),
+                 ('norefuse', ['NoRefuseAfterShutdown'], C({1, 2, 3}, M(), cut=1, close=1)),
+                 ('sweepskip', ['SweepSkips'], C({1, 2, 3}, M(), cut=1))],
+        'sims': FAULT_SIMS,
+    },
+    'C04': {
+        'own': 'C04',
+        'models': {'quick': [('u3', C({1, 2, 3}, M(), dup=1, cut=1, loss=1)),
+                             ('u3sp', C({1, 2, 3}, M(sp=True, sd=True), dup=1, cut=1, loss=1))],
+                   'thorough': [('u4', C({1, 2, 3, 5}, M(), dup=1, cut=1, loss=1)),
+                                ('u4sp', C({1, 2, 3, 5}, M(sp=True), dup=1, cut=1, loss=2)),
+                                ('u4sd', C({1, 2, 3, 5}, M(sd=True), dup=1, cut=1, loss=2))]},
+        'devs': [('dupexec', ['DupExec'], C({1, 2, 3}, M())),
+                 ('pinghandler', ['PingRunsHandler'], C({1, 2, 3}, M())),
+                 ('dupexecP', ['DupExec'], C({1, 2, 3}, M(sp=True)))],
+        'sims': HAPPY_SIMS + FAULT_SIMS[:2],
+    },
+    'C05': {
+        'own': 'C05',
+        'models': {'quick': [('pp', C({1, 2, 3}, M(cp=True, sp=True))),
+                             ('ppf', C({1, 2, 6}, M(cp=True, sp=True), dup=1)),
+                             ('sp', C({1, 2, 3}, M(sp=True)))],
+                   'thorough': [('pp4', C({1, 2, 5, 6}, M(cp=True, sp=True), dup=1, cut=1)),
+                                ('pd4', C({1, 2, 5, 6}, M(cp=True, sp=True, cd=True, sd=True), dup=1)),
+                                ('pp3f', C({1, 2, 3}, M(cp=True, sp=True), dup=1, unk=1, cut=1, loss=1, wfail=1, close=1))]},
+        'devs': [('errinline', ['ErrorInline'], C({1, 2, 6}, M(cp=True, sp=True))),
+                 ('unordfin', ['UnorderedFinish'], C({1, 2, 5}, M(cp=True, sp=True))),
+                 ('unordexec', ['UnorderedExec'], C({1, 2, 5}, M(cp=True, sp=True)))],
+        'sims': [('pp', C({1, 2, 5, 6, 9, 10}, M(cp=True, sp=True), dup=1)),
+                 ('pd', C({1, 2, 5, 6, 9, 10}, M(cp=True, sp=True, cd=True, sd=True))),
+                 ('ps', C({1, 2, 5, 6, 9, 10}, M(cp=True, sp=True, sd=True))),
+                 ('pc', C({1, 2, 5, 6, 9, 10}, M(cp=True, sp=True, cd=True))),
+                 ('pp3', C({1, 2, 3, 6}, M(cp=True, sp=True), cut=1, wfail=1))],
+    },
+    'C06': {
+        'own': 'C06',
+        'models': {'quick': [('u3e', C({1, 2, 6}, M(), mfail=1, dup=1)),
+                             ('u3eP', C({1, 2, 6}, M(cp=True, sp=True), mfail=1))],
+                   'thorough': [('u4e', C({1, 2, 5, 6}, M(), mfail=1, dup=1, unk=1)),
+                                ('u4eP', C({1, 2, 5, 6}, M(cp=True, sp=True), mfail=1, dup=1)),
+                                ('u4eD', C({1, 2, 5, 6}, M(cd=True, sd=True), mfail=1, dup=1))]},
+        'devs': [('wrongseq', ['EchoWrongSeq'], C({1, 2, 6}, M()))],
+        'sims': [('np', C({1, 2, 5, 6, 10}, M(), mfail=2, dup=1, unk=1)),
+                 ('pp', C({1, 2, 5, 6, 10}, M(cp=True, sp=True), mfail=2, dup=1)),
+                 ('dd', C({1, 2, 5, 6, 10}, M(cd=True, sd=True), mfail=2, dup=1))],
+    },
+    'C19': {
+        'own': 'C19',
+        'models': {'quick': [('x3', C({1, 4, 8}, M(), dup=1, ctx=None)),
+                             ('x3c', C({1, 4}, M(), cut=1, close=1, ctx=None))],
+                   'thorough': [('x4', C({1, 2, 4, 8}, M(), dup=1, cut=1, ctx=None)),
+                                ('x4P', C({1, 2, 4, 8}, M(cp=True, sp=True), dup=1, ctx=None))]},
+        'devs': [],
+        'sims': [('np', C({1, 2, 4, 8}, M(), dup=1, ctx=None)),
+                 ('pp', C({1, 2, 4, 8}, M(cp=True, sp=True), dup=1, ctx=None)),
+                 ('dd', C({1, 2, 4, 8}, M(cd=True, sd=True), cut=1, ctx=None))],
     },
 }
 
@@ -66,6 +153,12 @@ def conn_check(pid, tier, replay_file=None):
     cov = {'model_runs': [], 'deviation_runs': [], 'states': 0, 'transitions': 0, 'traces_validated_against_impl': 0,
            'samples': [], 'schedules_replayed': 0, 'trace_events': 0, 'divergence_notes': 0}
     schedules = []
+    phase = {}
+    tp = time.time()
+    def lap(name):
+        nonlocal tp
+        phase[name] = round(phase.get(name, 0) + time.time() - tp, 1)
+        tp = time.time()
     if replay_file:
         v = json.load(open(replay_file))
         schedules = [v['schedule']]
@@ -82,6 +175,7 @@ def conn_check(pid, tier, replay_file=None):
                                 'over-strict; fix the model before trusting any verdict\n%s' % (res['violated'], tag, res['out'][-2500:]))
             if not res['complete']:
                 raise Machinery('model checking of %s did not complete (timeout=%s)' % (tag, res['timeout']))
+        lap('model_check')
         # 2. directed schedules: counterexamples of deviated models
         for tag, dev, c in plan['devs']:
             s, res = cf.deviation_schedule('%s_%s' % (pid, tag), c, dev)
@@ -90,14 +184,17 @@ def conn_check(pid, tier, replay_file=None):
             if s is None:
                 raise Machinery('deviation %s produced no counterexample: the model is insensitive to it (vacuity)' % dev)
             schedules.append(s)
+        lap('deviations')
         # 3. random behaviours of the intended design
         nsim = 60 if tier == 'quick' else 600
         for j, (tag, c) in enumerate(plan['sims']):
             ss, res = cf.sim_schedules('%s_%s' % (pid, tag), c, nsim, 60, sd * 1000 + j)
             schedules.extend(ss)
+    lap('simulate')
     # 4. replay on the real code
     names_by_mode = {}
     rp, crashes = cf.replay(schedules, pid)
+    lap('replay')
     for cr in crashes:
         first = cr['panic'].splitlines()[0] if cr['panic'] else 'crash'
         summary = 'C08: the process crashed inside hslam/rpc while replaying %s (mode %s, %d/3 isolated re-runs crash): %s' % (
@@ -133,6 +230,9 @@ def conn_check(pid, tier, replay_file=None):
             tr = cf.split_traces(tracefile)
             cov['samples'].append({'schedule': ss[0]['name'], 'steps': ss[0]['steps'][:40],
                                    'trace_excerpt': [json.loads(x) for x in tr[0][:25]] if tr else []})
+    lap('validate')
+    cov['phase_wall_s'] = phase
+    print('phases:', phase)
     for n in notes[:20]:
         print('note:', n)
     cov['notes'] = notes[:50]
